@@ -57,6 +57,26 @@ def translate():
     f = t2.find_def(tree, 'f2e', 'Mesh')
     st = t2.only([s for s in ast.walk(f) if isinstance(s, ast.Assign)], 'f2e assignment')
     _expect(st, '_, self._f2e = self.build_entities(self.facets, self.bndelem.refdom.facets)', 'Mesh.f2e')
+    # --- boundary_edges (mesh.py) and interior_edges (mesh_3d.py): the statements the model follows
+    f = t2.find_def(tree, 'boundary_edges', 'Mesh')
+    want = ['refdom = self.elem.refdom',
+            'facet_edges = np.array([[set(edge) <= set(facet) for edge in refdom.edges] for facet in refdom.facets], dtype=np.int32)',
+            'facets = self.boundary_facets()',
+            'cells = self.f2t[0, facets]',
+            'local_facets = (self.t2f[:, cells] == facets).astype(np.int32)',
+            'local_edges = facet_edges.T @ local_facets > 0',
+            'return np.unique(self.t2e[:, cells][local_edges])']
+    got = [t2.src(s) for s in _body(f)]
+    if got != want:
+        raise TranslateError('Mesh.boundary_edges body: ' + repr([g for g, w in zip(got + [''] * 9, want + [''] * 9) if g != w][:2]))
+    t3 = t2.parse('skfem/mesh/mesh_3d.py')
+    f = t2.find_def(t3, 'interior_edges', 'Mesh3D')
+    _expect(t2.only(_body(f), 'interior_edges body'),
+            'return np.setdiff1d(np.arange(self.edges.shape[1], dtype=np.int32), self.boundary_edges())', 'Mesh3D.interior_edges')
+    for nm, fn in (('boundary_facets', 'return np.nonzero(self.f2t[1] == -1)[0].astype(np.int32)'),
+                   ('boundary_nodes', 'return np.unique(self.facets[:, self.boundary_facets()])'),
+                   ('interior_nodes', 'return np.setdiff1d(np.arange(0, self.p.shape[1]), self.boundary_nodes())')):
+        _expect(t2.only(_body(t2.find_def(tree, nm, 'Mesh')), nm + ' body'), fn, 'Mesh.' + nm)
     # --- per mesh class: refdom, boundary refdom, sort flag
     lines = []
     names = {}
@@ -75,9 +95,9 @@ def translate():
         r = cls.elem.refdom
         if names.get(r) != kind:
             raise TranslateError(f'{cls.__name__}.elem.refdom is {r.__name__}')
-        if cls._init_edges is not skfem.Mesh._init_edges or cls.build_entities is not skfem.Mesh.build_entities \
-                or cls.build_inverse is not skfem.Mesh.build_inverse:
-            raise TranslateError(f'{cls.__name__} overrides _init_edges / build_entities / build_inverse')
+        for attr in ('_init_edges', 'build_entities', 'build_inverse', 'boundary_edges', 'boundary_facets', 'boundary_nodes', 'interior_nodes'):
+            if getattr(cls, attr) is not getattr(skfem.Mesh, attr):
+                raise TranslateError(f'{cls.__name__} overrides {attr}')
         if cls._init_facets is skfem.Mesh._init_facets:
             sortf = True
         else:
@@ -130,10 +150,10 @@ Definition run2 (c : string_kind * nat * list (list nat)) : list (list (list Z))
 Definition run3 (c : string_kind * nat * list (list nat)) : list (list (list Z)) :=
   let '(k, nv, cells) := c in
   let tb := derive3 (k_sortf k) cells (k_facets k) (k_edges k) (k_bnd k) in
-  [zll (T_edges tb); zll (T_t2e tb); zll (T_f2e tb); [zl (T_bedges tb)]; [zl (T_iedges tb)]].
-Definition run3w (c : string_kind * nat * list (list nat)) : list (list (list Z)) :=
+  [zll (T_edges tb); zll (T_t2e tb); [zl (T_bedges tb)]; [zl (T_iedges tb)]].
+Definition runf2e (c : string_kind * nat * list (list nat)) : list (list Z) :=
   let '(k, nv, cells) := c in
-  let '(edg, t2e) := build_entities true cells (k_edges k) in [zll edg; zll t2e].
+  zll (T_f2e (derive3 (k_sortf k) cells (k_facets k) (k_edges k) (k_bnd k))).
 '''
 
 
@@ -197,7 +217,7 @@ def _correspond(ctx, rng):
     defs = kind_defs() + CORR_DEFS
     n_geo = ctx.n(30, 120)
     n_abs = ctx.n(10, 40)
-    cases2, cases3 = [], []
+    cases2, cases3, casesf = [], [], []
     for kind in KINDS:
         for i in range(n_geo + n_abs):
             if i < n_geo:
@@ -210,11 +230,12 @@ def _correspond(ctx, rng):
             try:
                 rep = (kind, info['style'], m.t.shape[1], _shares(m))
                 out2 = tables2(m)
-                out3 = None
-                if kind in ('tet', 'hex') and len(m.boundary_facets()) > 0:
-                    # (a 3-D cell complex without boundary facets is not embeddable; boundary_edges raises on it)
-                    out3 = clist([zrows(m.edges.T), zrows(m.t2e), zrows(m.f2e), zrows([np.sort(m.boundary_edges())]),
+                out3 = outf = None
+                if kind in ('tet', 'hex', 'wedge'):
+                    out3 = clist([zrows(m.edges.T), zrows(m.t2e), zrows([np.sort(m.boundary_edges())]),
                                   zrows([np.sort(m.interior_edges())])])
+                    if m.bndelem is not None:
+                        outf = zrows(m.f2e)
             except Exception as ex:     # the implementation raised on a mesh it accepted: a failing input
                 if info['style'] != 'abstract':
                     ctx.fail(f'{kind}:exception', f'{type(m).__name__}: deriving the connectivity raises {type(ex).__name__}: {ex}',
@@ -226,8 +247,11 @@ def _correspond(ctx, rng):
                             't2f': m.t2f.tolist(), 'f2t': m.f2t.tolist()})
             if out3 is not None:
                 cases3.append((case_input(kind, m), out3, rep))
+            if outf is not None:
+                casesf.append((case_input(kind, m), outf, rep))
     ctx.corr('tables', imports, 'run2', 'zsss_eqb', cases2, per_file=60, defs=defs, nontrivial=lambda r: r[3])
     ctx.corr('tables3d', imports, 'run3', 'zsss_eqb', cases3, per_file=40, defs=defs, nontrivial=lambda r: r[3])
+    ctx.corr('f2e', imports, 'runf2e', 'zss_eqb', casesf, per_file=40, defs=defs, nontrivial=lambda r: r[3])
 
 
 # ------------------------------------------------------------------------------ oracle (set based, independent code)
@@ -340,18 +364,17 @@ def oracle_mesh(kind, m, manifold=True):
             for s, ix in enumerate(eslots):
                 if set(t[ix, e].tolist()) <= fv:
                     want_be.add(int(t2e[s, e]))
-    if single:
-        try:
-            be = sorted(int(x) for x in m.boundary_edges())
-            ie = sorted(int(x) for x in m.interior_edges())
-        except Exception as ex:     # an exception on a valid mesh is a failing input
-            bad.append(('boundary_edges', f'raises {type(ex).__name__}: {ex}'))
-            be = ie = None
-        if be is not None:
-            if be != sorted(want_be):
-                bad.append(('boundary_edges', f'{be} but the edges of single-neighbour facets are {sorted(want_be)}'))
-            if sorted(be + ie) != list(range(ne)) or set(be) & set(ie):
-                bad.append(('interior_edges', 'boundary and interior edges do not partition the edges'))
+    try:
+        be = sorted(int(x) for x in m.boundary_edges())
+        ie = sorted(int(x) for x in m.interior_edges())
+    except Exception as ex:     # an exception on a valid mesh is a failing input
+        bad.append(('boundary_edges', f'raises {type(ex).__name__}: {ex}'))
+        be = ie = None
+    if be is not None:
+        if be != sorted(want_be):
+            bad.append(('boundary_edges', f'{be} but the edges of single-neighbour facets are {sorted(want_be)}'))
+        if sorted(be + ie) != list(range(ne)) or set(be) & set(ie):
+            bad.append(('interior_edges', 'boundary and interior edges do not partition the edges'))
     # f2e (only where the library defines a boundary element)
     if m.bndelem is not None:
         f2e = np.asarray(m.f2e)
